@@ -16,6 +16,7 @@ import (
 
 	ssync "verif/shim/sync"
 	"verif/vclock"
+	"verif/vsched"
 )
 
 // C13 — Dump followed by Restore reproduces the cache exactly (DESIGN §C13).
@@ -72,22 +73,22 @@ func snapshotIface(w interface {
 }
 
 func (x xSM) Put(ctx context.Context, k []byte, v interface{}) { _ = x.c.Write(ctx, k, v) }
-func (x xSM) Snapshot() (map[string]xent, []string, int)        { return snapshotIface(x.c) }
-func (x xSM) Dump(w io.Writer) (int, error)                     { return x.c.Dump(w) }
-func (x xSM) Restore(r io.Reader) (int, error)                  { return x.c.Restore(r) }
-func (x xSM) ReadVal(k []byte) (interface{}, error)             { return x.c.Read(context.Background(), k) }
-func (x xSM) WDR() cache.WalkDumpRestorer                       { return x.c }
+func (x xSM) Snapshot() (map[string]xent, []string, int)       { return snapshotIface(x.c) }
+func (x xSM) Dump(w io.Writer) (int, error)                    { return x.c.Dump(w) }
+func (x xSM) Restore(r io.Reader) (int, error)                 { return x.c.Restore(r) }
+func (x xSM) ReadVal(k []byte) (interface{}, error)            { return x.c.Read(context.Background(), k) }
+func (x xSM) WDR() cache.WalkDumpRestorer                      { return x.c }
 func (x xSY) Put(ctx context.Context, k []byte, v interface{}) { _ = x.c.Write(ctx, k, v) }
-func (x xSY) Snapshot() (map[string]xent, []string, int)        { return snapshotIface(x.c) }
-func (x xSY) Dump(w io.Writer) (int, error)                     { return x.c.Dump(w) }
-func (x xSY) Restore(r io.Reader) (int, error)                  { return x.c.Restore(r) }
-func (x xSY) ReadVal(k []byte) (interface{}, error)             { return x.c.Read(context.Background(), k) }
-func (x xSY) WDR() cache.WalkDumpRestorer                       { return x.c }
+func (x xSY) Snapshot() (map[string]xent, []string, int)       { return snapshotIface(x.c) }
+func (x xSY) Dump(w io.Writer) (int, error)                    { return x.c.Dump(w) }
+func (x xSY) Restore(r io.Reader) (int, error)                 { return x.c.Restore(r) }
+func (x xSY) ReadVal(k []byte) (interface{}, error)            { return x.c.Read(context.Background(), k) }
+func (x xSY) WDR() cache.WalkDumpRestorer                      { return x.c }
 
 func (x xOF[V]) Put(ctx context.Context, k []byte, v interface{}) { _ = x.c.Write(ctx, k, v.(V)) }
-func (x xOF[V]) Dump(w io.Writer) (int, error)                     { return x.c.Dump(w) }
-func (x xOF[V]) Restore(r io.Reader) (int, error)                  { return x.c.Restore(r) }
-func (x xOF[V]) WDR() cache.WalkDumpRestorer                       { return x.c.WalkDumpRestorer() }
+func (x xOF[V]) Dump(w io.Writer) (int, error)                    { return x.c.Dump(w) }
+func (x xOF[V]) Restore(r io.Reader) (int, error)                 { return x.c.Restore(r) }
+func (x xOF[V]) WDR() cache.WalkDumpRestorer                      { return x.c.WalkDumpRestorer() }
 func (x xOF[V]) ReadVal(k []byte) (interface{}, error) {
 	v, err := x.c.Read(context.Background(), k)
 	return v, err
@@ -113,7 +114,12 @@ func (x xOF[V]) Snapshot() (map[string]xent, []string, int) {
 	return m, order, n
 }
 
-func newXfer(kind string) xfer {
+func newXfer(kind string) (x xfer) {
+	vsched.Construct(func() { x = newXferRaw(kind) })
+	return x
+}
+
+func newXferRaw(kind string) xfer {
 	cfg := cache.Config{Name: "x", TimeToLive: cache.UnlimitedTTL, ExpirationJitter: -1}
 
 	switch kind {
